@@ -133,7 +133,7 @@ def cases_quick(rng, scale=1):
     for form, (ea, clocks), lx in itertools.product(L.EXIT_AFTER_FORMS, [(1000, [0, 500, 1000, 1500]), (2000, [500, 2500, 3000]), (1000, [0, 500]), (3000, [1000, 2000, 3000, 3000])], [True, False]):
         if form == 'int' and ea % 1000: continue
         s = {'iters': [{'clock': c} for c in clocks], 'exit_after': ea}
-        cases.append({'name': 'exit_after:' + form, 'prop': 'clean', 'obey': 'all', 'loop_exc': lx, 'script': s, 'topo': 'both', 'exit_after_form': form})
+        cases.append({'name': 'exit_after:' + form, 'prop': 'clean', 'obey': 'all', 'loop_exc': lx, 'script': s, 'topo': 'both', 'exit_after_form': form, 'log_utc': lx})
     for form, pos in itertools.product(L.EXIT_AFTER_FORMS[:4], [0, 1, 2]):   # the deadline passes in an iteration whose send gives up after outputs_timeout (consumer not asking)
         its = [{'clock': 500}, {'clock': 2000}, {'clock': 2500}]; its[pos]['send'] = 'busy'
         cases.append({'name': 'exit_after+busy:' + form, 'prop': 'clean', 'obey': 'all', 'loop_exc': True, 'script': {'iters': its, 'exit_after': 2000}, 'topo': 'both', 'exit_after_form': form})
